@@ -9,12 +9,6 @@ type nat =
 | O
 | S of nat
 
-(** val option_map : ('a1 -> 'a2) -> 'a1 option -> 'a2 option **)
-
-let option_map f = function
-| Some a -> Some (f a)
-| None -> None
-
 (** val fst : ('a1 * 'a2) -> 'a1 **)
 
 let fst = function
@@ -42,13 +36,6 @@ type comparison =
 | Eq
 | Lt
 | Gt
-
-(** val compOpp : comparison -> comparison **)
-
-let compOpp = function
-| Eq -> Eq
-| Lt -> Gt
-| Gt -> Lt
 
 module Coq__1 = struct
  (** val add : nat -> nat -> nat **)
@@ -115,17 +102,6 @@ module Nat =
 
   let ltb n0 m =
     leb (S n0) m
-
-  (** val compare : nat -> nat -> comparison **)
-
-  let rec compare n0 m =
-    match n0 with
-    | O -> (match m with
-            | O -> Eq
-            | S _ -> Lt)
-    | S n' -> (match m with
-               | O -> Gt
-               | S m' -> compare n' m')
 
   (** val min : nat -> nat -> nat **)
 
@@ -453,20 +429,6 @@ module Coq_Pos =
   let rec of_succ_nat = function
   | O -> XH
   | S x -> succ (of_succ_nat x)
-
-  (** val eq_dec : positive -> positive -> bool **)
-
-  let rec eq_dec p x0 =
-    match p with
-    | XI p0 -> (match x0 with
-                | XI p1 -> eq_dec p0 p1
-                | _ -> false)
-    | XO p0 -> (match x0 with
-                | XO p1 -> eq_dec p0 p1
-                | _ -> false)
-    | XH -> (match x0 with
-             | XH -> true
-             | _ -> false)
  end
 
 module N =
@@ -555,13 +517,6 @@ module N =
     match compare x y with
     | Lt -> true
     | _ -> false
-
-  (** val min : n -> n -> n **)
-
-  let min n0 n' =
-    match compare n0 n' with
-    | Gt -> n'
-    | _ -> n0
 
   (** val div2 : n -> n **)
 
@@ -677,17 +632,6 @@ module N =
   | O -> N0
   | S n' -> Npos (Coq_Pos.of_succ_nat n')
 
-  (** val eq_dec : n -> n -> bool **)
-
-  let eq_dec n0 m =
-    match n0 with
-    | N0 -> (match m with
-             | N0 -> true
-             | Npos _ -> false)
-    | Npos p -> (match m with
-                 | N0 -> false
-                 | Npos p0 -> Coq_Pos.eq_dec p p0)
-
   (** val b2n : bool -> n **)
 
   let b2n = function
@@ -731,18 +675,6 @@ let rec rev = function
 | [] -> []
 | x :: l' -> app (rev l') (x :: [])
 
-(** val list_eq_dec : ('a1 -> 'a1 -> bool) -> 'a1 list -> 'a1 list -> bool **)
-
-let rec list_eq_dec eq_dec0 l l' =
-  match l with
-  | [] -> (match l' with
-           | [] -> true
-           | _ :: _ -> false)
-  | y :: l0 ->
-    (match l' with
-     | [] -> false
-     | a :: l1 -> if eq_dec0 y a then list_eq_dec eq_dec0 l0 l1 else false)
-
 (** val map : ('a1 -> 'a2) -> 'a1 list -> 'a2 list **)
 
 let rec map f = function
@@ -767,22 +699,6 @@ let rec fold_right f a0 = function
 let rec existsb f = function
 | [] -> false
 | a :: l0 -> (||) (f a) (existsb f l0)
-
-(** val forallb : ('a1 -> bool) -> 'a1 list -> bool **)
-
-let rec forallb f = function
-| [] -> true
-| a :: l0 -> (&&) (f a) (forallb f l0)
-
-(** val combine : 'a1 list -> 'a2 list -> ('a1 * 'a2) list **)
-
-let rec combine l l' =
-  match l with
-  | [] -> []
-  | x :: tl0 ->
-    (match l' with
-     | [] -> []
-     | y :: tl' -> (x, y) :: (combine tl0 tl'))
 
 (** val firstn : nat -> 'a1 list -> 'a1 list **)
 
@@ -2740,934 +2656,6 @@ let rec dedup_by eqb2 = function
    | [] -> x :: []
    | y :: t -> if eqb2 x y then y :: t else x :: (y :: t))
 
-type sivl = { s_min : dna; s_mpos : nat; s_start : nat; s_len : nat }
-
-(** val flank_exts : dna -> nat -> nat -> n **)
-
-let flank_exts seq0 start len =
-  let l =
-    if Nat.ltb O start
-    then N.pow (Npos (XO XH)) (nth (sub start (S O)) seq0 N0)
-    else N0
-  in
-  let r =
-    if Nat.ltb (add start len) (length seq0)
-    then N.pow (Npos (XO XH)) (nth (add start len) seq0 N0)
-    else N0
-  in
-  N.add l (N.mul (Npos (XO (XO (XO (XO XH))))) r)
-
-type minpos = { mval : n; mpos : nat; mkmer : dna }
-
-(** val mp_cmp : minpos -> minpos -> comparison **)
-
-let mp_cmp a b =
-  match N.compare a.mval b.mval with
-  | Eq -> compOpp (Nat.compare a.mpos b.mpos)
-  | x -> x
-
-(** val mp_min : minpos -> minpos -> minpos **)
-
-let mp_min a b =
-  match mp_cmp a b with
-  | Gt -> b
-  | _ -> a
-
-type interval = { iv_minimizer : dna; iv_mpos : n; iv_start : n; iv_len : n }
-
-(** val cast : n -> nat -> n **)
-
-let cast w n0 =
-  N.modulo (N.of_nat n0) (N.pow (Npos (XO XH)) w)
-
-(** val cast_iv : n -> sivl -> interval **)
-
-let cast_iv wl x =
-  { iv_minimizer = x.s_min; iv_mpos =
-    (cast (Npos (XO (XO (XO (XO (XO XH)))))) x.s_mpos); iv_start =
-    (cast (Npos (XO (XO (XO (XO (XO XH)))))) x.s_start); iv_len =
-    (cast wl x.s_len) }
-
-(** val mp : (dna -> n) -> dna -> nat -> nat -> minpos **)
-
-let mp score seq0 p pos =
-  let kmer = sub0 pos p seq0 in
-  { mval = (score kmer); mpos = pos; mkmer = kmer }
-
-(** val incr : (dna -> n) -> dna -> nat -> minpos -> minpos **)
-
-let incr score seq0 p m =
-  let pos = add m.mpos (S O) in
-  let kmer = extend_right m.mkmer (nth (sub (add pos p) (S O)) seq0 N0) in
-  { mval = (score kmer); mpos = pos; mkmer = kmer }
-
-(** val find_min_loop :
-    (dna -> n) -> dna -> nat -> nat -> minpos -> minpos -> minpos **)
-
-let rec find_min_loop score seq0 p n0 min_pos current =
-  match n0 with
-  | O -> min_pos
-  | S n' ->
-    let current0 = incr score seq0 p current in
-    find_min_loop score seq0 p n' (mp_min min_pos current0) current0
-
-(** val find_min : (dna -> n) -> dna -> nat -> nat -> nat -> minpos **)
-
-let find_min score seq0 p start stop =
-  let min_pos = mp score seq0 p start in
-  find_min_loop score seq0 p (sub stop start) min_pos min_pos
-
-type scan_state = (minpos * minpos) * (nat * minpos) list
-
-(** val scan_step :
-    (dna -> n) -> dna -> nat -> nat -> scan_state -> nat -> scan_state **)
-
-let scan_step score seq0 k p st i =
-  let (p0, acc) = st in
-  let (min_pos, end_pos) = p0 in
-  let end_pos0 = incr score seq0 p end_pos in
-  if Nat.ltb min_pos.mpos i
-  then let min_pos0 = find_min score seq0 p i (sub (add i k) p) in
-       ((min_pos0, end_pos0), ((i, min_pos0) :: acc))
-  else if N.ltb end_pos0.mval min_pos.mval
-       then ((end_pos0, end_pos0), ((i, end_pos0) :: acc))
-       else ((min_pos, end_pos0), acc)
-
-(** val scan_init : (dna -> n) -> dna -> nat -> nat -> scan_state **)
-
-let scan_init score seq0 k p =
-  let min_pos = find_min score seq0 p O (sub k p) in
-  ((min_pos, (mp score seq0 p (sub k p))), ((O, min_pos) :: []))
-
-(** val min_positions :
-    (dna -> n) -> dna -> nat -> nat -> (nat * minpos) list **)
-
-let min_positions score seq0 k p =
-  let (_, acc) =
-    fold_left (scan_step score seq0 k p) (seq (S O) (sub (length seq0) k))
-      (scan_init score seq0 k p)
-  in
-  rev acc
-
-(** val synth : dna -> nat -> (nat * minpos) list -> sivl list **)
-
-let rec synth seq0 k = function
-| [] -> []
-| p0 :: rest ->
-  let (start_pos, min_pos) = p0 in
-  (match rest with
-   | [] ->
-     { s_min = min_pos.mkmer; s_mpos = min_pos.mpos; s_start = start_pos;
-       s_len = (sub (length seq0) start_pos) } :: []
-   | p1 :: _ ->
-     let (next_pos, _) = p1 in
-     { s_min = min_pos.mkmer; s_mpos = min_pos.mpos; s_start = start_pos;
-     s_len =
-     (sub (sub (add next_pos k) (S O)) start_pos) } :: (synth seq0 k rest))
-
-(** val scan_raw : (dna -> n) -> dna -> nat -> nat -> sivl list **)
-
-let scan_raw score seq0 k p =
-  synth seq0 k (min_positions score seq0 k p)
-
-(** val scan_guard : dna -> nat -> nat -> bool **)
-
-let scan_guard seq0 k p =
-  (&&)
-    ((&&)
-      ((&&) (Nat.leb k (length seq0))
-        (N.ltb (N.of_nat (length seq0))
-          (N.pow (Npos (XO XH)) (Npos (XO (XO (XO (XO (XO XH)))))))))
-      (Nat.leb p k)) (Nat.leb (S O) p)
-
-(** val scan_w :
-    (dna -> n) -> dna -> nat -> nat -> n -> interval list option **)
-
-let scan_w score seq0 k p wl =
-  if scan_guard seq0 k p
-  then Some (map (cast_iv wl) (scan_raw score seq0 k p))
-  else None
-
-(** val scan : (dna -> n) -> dna -> nat -> nat -> interval list option **)
-
-let scan score seq0 k p =
-  scan_w score seq0 k p (Npos (XO (XO (XO (XO XH)))))
-
-(** val bucket_of : dna -> n **)
-
-let bucket_of minimizer =
-  rank (canon minimizer)
-
-(** val perm_score : n list -> bool -> dna -> n **)
-
-let perm_score perm rcmode x =
-  let s = nth (N.to_nat (rank x)) perm N0 in
-  if rcmode then N.min s (nth (N.to_nat (rank (rc x))) perm N0) else s
-
-(** val simple_scan :
-    dna -> nat -> nat -> n list -> bool -> ((n * n) * n) list option **)
-
-let simple_scan seq0 k p perm rcmode =
-  if Nat.leb p (S (S (S (S (S (S (S (S O))))))))
-  then (match scan (perm_score perm rcmode) seq0 k p with
-        | Some ivs ->
-          Some
-            (map (fun x ->
-              (((N.modulo (bucket_of x.iv_minimizer)
-                  (N.pow (Npos (XO XH)) (Npos (XO (XO (XO (XO XH))))))),
-              x.iv_start), x.iv_len)) ivs)
-        | None -> None)
-  else None
-
-(** val from_slice_bounds : dna -> nat -> nat -> n **)
-
-let from_slice_bounds src start len =
-  let l_extend =
-    if Nat.ltb O start
-    then N.pow (Npos (XO XH)) (nth (sub start (S O)) src N0)
-    else N0
-  in
-  let r_extend =
-    if Nat.ltb (add start len) (length src)
-    then N.pow (Npos (XO XH)) (nth (add start len) src N0)
-    else N0
-  in
-  N.add
-    (N.modulo (N.mul r_extend (Npos (XO (XO (XO (XO XH)))))) (Npos (XO (XO
-      (XO (XO (XO (XO (XO (XO XH)))))))))) l_extend
-
-(** val msp_score : nat -> n list option -> bool -> dna -> n **)
-
-let msp_score _ perm rcmode x =
-  match perm with
-  | Some t -> perm_score t rcmode x
-  | None -> if rcmode then N.min (rank x) (rank (rc x)) else rank x
-
-(** val msp_piece : dna -> interval -> (n * n) * dna **)
-
-let msp_piece seq0 x =
-  let start = N.to_nat x.iv_start in
-  let len = N.to_nat x.iv_len in
-  (((N.modulo (bucket_of x.iv_minimizer)
-      (N.pow (Npos (XO XH)) (Npos (XO (XO (XO (XO (XO XH)))))))),
-  (from_slice_bounds seq0 start len)), (sub0 start len seq0))
-
-(** val msp_sequence :
-    n -> dna -> nat -> nat -> n list option -> bool -> ((n * n) * dna) list
-    option **)
-
-let msp_sequence max_len seq0 k p perm rcmode =
-  if (&&) (Nat.leb p (mul (S (S O)) k))
-       (N.leb (N.of_nat (sub (mul (S (S O)) k) p)) max_len)
-  then if Nat.ltb (length seq0) k
-       then Some []
-       else (match scan (msp_score p perm rcmode) seq0 k p with
-             | Some ivs -> Some (map (msp_piece seq0) ivs)
-             | None -> None)
-  else None
-
-(** val dna_eq : dna -> dna -> bool **)
-
-let dna_eq a b =
-  if list_eq_dec N.eq_dec a b then true else false
-
-(** val check_iv : dna -> nat -> nat -> n list -> sivl -> bool **)
-
-let check_iv seq0 k p sc x =
-  let st = x.s_start in
-  let ln = x.s_len in
-  let q = x.s_mpos in
-  (&&)
-    ((&&)
-      ((&&)
-        ((&&)
-          ((&&) ((&&) (Nat.leb k ln) (Nat.leb ln (sub (mul (S (S O)) k) p)))
-            (dna_eq x.s_min (sub0 q p seq0))) (Nat.leb (sub (add st ln) k) q))
-        (Nat.leb (add q p) (add st k))) (Nat.leb (add st ln) (length seq0)))
-    (forallb (fun v -> N.leb (nth q sc N0) v)
-      (sub0 st (add (sub ln p) (S O)) sc))
-
-(** val check_end : dna -> nat -> nat -> n list -> sivl -> bool **)
-
-let check_end seq0 k p sc x =
-  let e = add (sub (add x.s_start x.s_len) k) (S O) in
-  (||) (Nat.ltb x.s_mpos e)
-    ((&&) (Nat.leb (add e k) (length seq0))
-      (N.ltb (nth (sub (add e k) p) sc N0) (nth x.s_mpos sc N0)))
-
-(** val check_chain : dna -> nat -> nat -> n list -> sivl list -> bool **)
-
-let rec check_chain seq0 k p sc = function
-| [] -> false
-| x :: r ->
-  (match r with
-   | [] -> Nat.eqb (add x.s_start x.s_len) (length seq0)
-   | y :: _ ->
-     (&&)
-       ((&&)
-         ((&&) (Nat.ltb x.s_start y.s_start)
-           (Nat.eqb y.s_start (sub (add x.s_start x.s_len) (sub k (S O)))))
-         (check_end seq0 k p sc x)) (check_chain seq0 k p sc r))
-
-(** val check_scan : dna -> nat -> nat -> n list -> sivl list -> bool **)
-
-let check_scan seq0 k p sc l =
-  (&&)
-    ((&&)
-      ((&&)
-        ((&&)
-          ((&&) ((&&) (Nat.leb (S O) p) (Nat.leb p k))
-            (Nat.leb k (length seq0)))
-          (Nat.eqb (length sc) (sub (add (length seq0) (S O)) p)))
-        (match l with
-         | [] -> false
-         | x :: _ -> Nat.eqb x.s_start O)) (forallb (check_iv seq0 k p sc) l))
-    (check_chain seq0 k p sc l)
-
-(** val check_pieces :
-    nat -> bool -> dna -> nat -> ((n * n) * dna) list -> (dna * n) list option **)
-
-let rec check_pieces k rcmode read start = function
-| [] -> None
-| p :: r ->
-  let (p0, piece) = p in
-  let (bucket, exts) = p0 in
-  let len = length piece in
-  if (&&) ((&&) (Nat.leb k len) (dna_eq piece (sub0 start len read)))
-       (N.eqb exts (flank_exts read start len))
-  then let obs =
-         map (fun i ->
-           ((let x = sub0 i k read in if rcmode then canon x else x),
-           bucket)) (seq start (sub (add len (S O)) k))
-       in
-       (match r with
-        | [] ->
-          if Nat.eqb (add start len) (length read) then Some obs else None
-        | _ :: _ ->
-          (match check_pieces k rcmode read
-                   (sub (add start len) (sub k (S O))) r with
-           | Some o -> Some (app obs o)
-           | None -> None))
-  else None
-
-(** val check_read :
-    nat -> bool -> (dna * ((n * n) * dna) list) -> (dna * n) list option **)
-
-let check_read k rcmode = function
-| (read, out) ->
-  if Nat.ltb (length read) k
-  then (match out with
-        | [] -> Some []
-        | _ :: _ -> None)
-  else check_pieces k rcmode read O out
-
-(** val all_obs :
-    nat -> bool -> (dna * ((n * n) * dna) list) list -> (dna * n) list option **)
-
-let rec all_obs k rcmode = function
-| [] -> Some []
-| ro :: r ->
-  (match check_read k rcmode ro with
-   | Some a ->
-     (match all_obs k rcmode r with
-      | Some b -> Some (app a b)
-      | None -> None)
-   | None -> None)
-
-(** val functional : (dna * n) list -> bool **)
-
-let rec functional = function
-| [] -> true
-| p :: r ->
-  let (x, b) = p in
-  (&&)
-    (forallb (fun yb -> (||) (negb (dna_eq x (fst yb))) (N.eqb b (snd yb))) r)
-    (functional r)
-
-(** val check_msp :
-    nat -> bool -> (dna * ((n * n) * dna) list) list -> bool **)
-
-let check_msp k rcmode l =
-  (&&) (Nat.leb (S O) k)
-    (match all_obs k rcmode l with
-     | Some obs -> functional obs
-     | None -> false)
-
-(** val assoc_score : (n * n) list -> n -> n **)
-
-let rec assoc_score tbl key =
-  match tbl with
-  | [] -> N0
-  | p :: r -> let (k', v) = p in if N.eqb key k' then v else assoc_score r key
-
-(** val score_table : dna -> nat -> n list -> (n * n) list **)
-
-let score_table seq0 p scores =
-  combine (map rank (kmers p seq0)) scores
-
-(** val of_interval : interval -> val0 **)
-
-let of_interval x =
-  VL ((ofNs x.iv_minimizer) :: ((VN x.iv_mpos) :: ((VN x.iv_start) :: ((VN
-    x.iv_len) :: []))))
-
-(** val v_sivl : val0 -> sivl option **)
-
-let v_sivl = function
-| VL l0 ->
-  (match l0 with
-   | [] -> None
-   | v0 :: l1 ->
-     (match v0 with
-      | VL m ->
-        (match l1 with
-         | [] -> None
-         | v1 :: l2 ->
-           (match v1 with
-            | VN q ->
-              (match l2 with
-               | [] -> None
-               | v2 :: l3 ->
-                 (match v2 with
-                  | VN s ->
-                    (match l3 with
-                     | [] -> None
-                     | v3 :: l4 ->
-                       (match v3 with
-                        | VN l ->
-                          (match l4 with
-                           | [] ->
-                             (match vlistN m with
-                              | Some d ->
-                                Some { s_min = d; s_mpos = (N.to_nat q);
-                                  s_start = (N.to_nat s); s_len =
-                                  (N.to_nat l) }
-                              | None -> None)
-                           | _ :: _ -> None)
-                        | _ -> None))
-                  | _ -> None))
-            | _ -> None))
-      | _ -> None))
-| _ -> None
-
-(** val v_piece : val0 -> ((n * n) * dna) option **)
-
-let v_piece = function
-| VL l ->
-  (match l with
-   | [] -> None
-   | v0 :: l0 ->
-     (match v0 with
-      | VN b ->
-        (match l0 with
-         | [] -> None
-         | v1 :: l1 ->
-           (match v1 with
-            | VN e ->
-              (match l1 with
-               | [] -> None
-               | v2 :: l2 ->
-                 (match v2 with
-                  | VL pc ->
-                    (match l2 with
-                     | [] ->
-                       (match vlistN pc with
-                        | Some d -> Some ((b, e), d)
-                        | None -> None)
-                     | _ :: _ -> None)
-                  | _ -> None))
-            | _ -> None))
-      | _ -> None))
-| _ -> None
-
-(** val v_read_out : val0 -> (dna * ((n * n) * dna) list) option **)
-
-let v_read_out = function
-| VL l ->
-  (match l with
-   | [] -> None
-   | v0 :: l0 ->
-     (match v0 with
-      | VL r ->
-        (match l0 with
-         | [] -> None
-         | v1 :: l1 ->
-           (match v1 with
-            | VL o ->
-              (match l1 with
-               | [] ->
-                 (match vlistN r with
-                  | Some d ->
-                    (match omap v_piece o with
-                     | Some ps -> Some (d, ps)
-                     | None -> None)
-                  | None -> None)
-               | _ :: _ -> None)
-            | _ -> None))
-      | _ -> None))
-| _ -> None
-
-(** val of_piece : ((n * n) * dna) -> val0 **)
-
-let of_piece = function
-| (p, d) -> let (b, e) = p in VL ((VN b) :: ((VN e) :: ((ofNs d) :: [])))
-
-(** val d_scan : string -> val0 -> val0 option **)
-
-let d_scan op v =
-  if eqb1 op (String ((Ascii (true, true, false, false, true, true, true,
-       false)), (String ((Ascii (true, true, false, false, false, true, true,
-       false)), (String ((Ascii (true, false, false, false, false, true,
-       true, false)), (String ((Ascii (false, true, true, true, false, true,
-       true, false)), (String ((Ascii (false, true, true, true, false, true,
-       false, false)), (String ((Ascii (true, true, false, false, true, true,
-       true, false)), (String ((Ascii (true, true, false, false, false, true,
-       true, false)), (String ((Ascii (true, false, false, false, false,
-       true, true, false)), (String ((Ascii (false, true, true, true, false,
-       true, true, false)), EmptyString))))))))))))))))))
-  then (match v with
-        | VL l ->
-          (match l with
-           | [] -> None
-           | v0 :: l0 ->
-             (match v0 with
-              | VL s ->
-                (match l0 with
-                 | [] -> None
-                 | v1 :: l1 ->
-                   (match v1 with
-                    | VN k ->
-                      (match l1 with
-                       | [] -> None
-                       | v2 :: l2 ->
-                         (match v2 with
-                          | VN p ->
-                            (match l2 with
-                             | [] -> None
-                             | v3 :: l3 ->
-                               (match v3 with
-                                | VL scs ->
-                                  (match l3 with
-                                   | [] ->
-                                     (match vlistN s with
-                                      | Some sq ->
-                                        (match vlistN scs with
-                                         | Some scores ->
-                                           let p' = N.to_nat p in
-                                           let tbl = score_table sq p' scores
-                                           in
-                                           Some
-                                           (ofopt (fun l4 -> VL
-                                             (map of_interval l4))
-                                             (scan (fun x ->
-                                               assoc_score tbl (rank x)) sq
-                                               (N.to_nat k) p'))
-                                         | None -> None)
-                                      | None -> None)
-                                   | _ :: _ -> None)
-                                | _ -> None))
-                          | _ -> None))
-                    | _ -> None))
-              | _ -> None))
-        | _ -> None)
-  else if eqb1 op (String ((Ascii (true, true, false, false, true, true,
-            true, false)), (String ((Ascii (true, true, false, false, false,
-            true, true, false)), (String ((Ascii (true, false, false, false,
-            false, true, true, false)), (String ((Ascii (false, true, true,
-            true, false, true, true, false)), (String ((Ascii (false, true,
-            true, true, false, true, false, false)), (String ((Ascii (true,
-            true, false, false, true, true, true, false)), (String ((Ascii
-            (true, false, false, true, false, true, true, false)), (String
-            ((Ascii (true, false, true, true, false, true, true, false)),
-            (String ((Ascii (false, false, false, false, true, true, true,
-            false)), (String ((Ascii (false, false, true, true, false, true,
-            true, false)), (String ((Ascii (true, false, true, false, false,
-            true, true, false)), EmptyString))))))))))))))))))))))
-       then (match v with
-             | VL l ->
-               (match l with
-                | [] -> None
-                | v0 :: l0 ->
-                  (match v0 with
-                   | VL s ->
-                     (match l0 with
-                      | [] -> None
-                      | v1 :: l1 ->
-                        (match v1 with
-                         | VN k ->
-                           (match l1 with
-                            | [] -> None
-                            | v2 :: l2 ->
-                              (match v2 with
-                               | VN p ->
-                                 (match l2 with
-                                  | [] -> None
-                                  | v3 :: l3 ->
-                                    (match v3 with
-                                     | VL pm ->
-                                       (match l3 with
-                                        | [] -> None
-                                        | v4 :: l4 ->
-                                          (match v4 with
-                                           | VN r ->
-                                             (match l4 with
-                                              | [] ->
-                                                (match vlistN s with
-                                                 | Some sq ->
-                                                   (match vlistN pm with
-                                                    | Some perm ->
-                                                      if N.eqb
-                                                           (N.of_nat
-                                                             (length perm))
-                                                           (N.pow (Npos (XO
-                                                             (XO XH))) p)
-                                                      then Some
-                                                             (ofopt
-                                                               (fun l5 -> VL
-                                                               (map (fun x ->
-                                                                 let (
-                                                                   y, ln) = x
-                                                                 in
-                                                                 let (
-                                                                   b, st) = y
-                                                                 in
-                                                                 VL ((VN
-                                                                 b) :: ((VN
-                                                                 st) :: ((VN
-                                                                 ln) :: []))))
-                                                                 l5))
-                                                               (simple_scan
-                                                                 sq
-                                                                 (N.to_nat k)
-                                                                 (N.to_nat p)
-                                                                 perm
-                                                                 (negb
-                                                                   (N.eqb r
-                                                                    N0))))
-                                                      else Some VAny
-                                                    | None -> None)
-                                                 | None -> None)
-                                              | _ :: _ -> None)
-                                           | _ -> None))
-                                     | _ -> None))
-                               | _ -> None))
-                         | _ -> None))
-                   | _ -> None))
-             | _ -> None)
-       else if (||)
-                 (eqb1 op (String ((Ascii (true, true, false, false, false,
-                   true, true, false)), (String ((Ascii (false, false, false,
-                   true, false, true, true, false)), (String ((Ascii (true,
-                   true, false, true, false, true, true, false)), (String
-                   ((Ascii (false, true, true, true, false, true, false,
-                   false)), (String ((Ascii (true, true, false, false, true,
-                   true, true, false)), (String ((Ascii (true, true, false,
-                   false, false, true, true, false)), (String ((Ascii (true,
-                   false, false, false, false, true, true, false)), (String
-                   ((Ascii (false, true, true, true, false, true, true,
-                   false)), EmptyString)))))))))))))))))
-                 (eqb1 op (String ((Ascii (true, true, false, false, false,
-                   true, true, false)), (String ((Ascii (false, false, false,
-                   true, false, true, true, false)), (String ((Ascii (true,
-                   true, false, true, false, true, true, false)), (String
-                   ((Ascii (false, true, true, true, false, true, false,
-                   false)), (String ((Ascii (true, true, false, false, true,
-                   true, true, false)), (String ((Ascii (true, true, false,
-                   false, false, true, true, false)), (String ((Ascii (true,
-                   false, false, false, false, true, true, false)), (String
-                   ((Ascii (false, true, true, true, false, true, true,
-                   false)), (String ((Ascii (false, true, true, true, false,
-                   true, false, false)), (String ((Ascii (true, false, true,
-                   false, true, true, true, false)), (String ((Ascii (false,
-                   true, true, true, false, true, true, false)), (String
-                   ((Ascii (true, true, true, false, false, true, true,
-                   false)), (String ((Ascii (true, false, true, false, true,
-                   true, true, false)), (String ((Ascii (true, false, false,
-                   false, false, true, true, false)), (String ((Ascii (false,
-                   true, false, false, true, true, true, false)), (String
-                   ((Ascii (false, false, true, false, false, true, true,
-                   false)), (String ((Ascii (true, false, true, false, false,
-                   true, true, false)), (String ((Ascii (false, false, true,
-                   false, false, true, true, false)),
-                   EmptyString)))))))))))))))))))))))))))))))))))))
-            then (match v with
-                  | VL l ->
-                    (match l with
-                     | [] -> None
-                     | v0 :: l0 ->
-                       (match v0 with
-                        | VL s ->
-                          (match l0 with
-                           | [] -> None
-                           | v1 :: l1 ->
-                             (match v1 with
-                              | VN k ->
-                                (match l1 with
-                                 | [] -> None
-                                 | v2 :: l2 ->
-                                   (match v2 with
-                                    | VN p ->
-                                      (match l2 with
-                                       | [] -> None
-                                       | v3 :: l3 ->
-                                         (match v3 with
-                                          | VL scs ->
-                                            (match l3 with
-                                             | [] -> None
-                                             | v4 :: l4 ->
-                                               (match v4 with
-                                                | VL ivs ->
-                                                  (match l4 with
-                                                   | [] ->
-                                                     (match vlistN s with
-                                                      | Some sq ->
-                                                        (match vlistN scs with
-                                                         | Some scores ->
-                                                           (match omap v_sivl
-                                                                    ivs with
-                                                            | Some l5 ->
-                                                              Some
-                                                                (ofbool
-                                                                  (check_scan
-                                                                    sq
-                                                                    (N.to_nat
-                                                                    k)
-                                                                    (N.to_nat
-                                                                    p) scores
-                                                                    l5))
-                                                            | None -> None)
-                                                         | None -> None)
-                                                      | None -> None)
-                                                   | _ :: _ -> None)
-                                                | _ -> None))
-                                          | _ -> None))
-                                    | _ -> None))
-                              | _ -> None))
-                        | _ -> None))
-                  | _ -> None)
-            else if eqb1 op (String ((Ascii (true, false, true, true, false,
-                      true, true, false)), (String ((Ascii (true, true,
-                      false, false, true, true, true, false)), (String
-                      ((Ascii (false, false, false, false, true, true, true,
-                      false)), (String ((Ascii (false, true, true, true,
-                      false, true, false, false)), (String ((Ascii (true,
-                      true, false, false, true, true, true, false)), (String
-                      ((Ascii (true, false, true, false, false, true, true,
-                      false)), (String ((Ascii (true, false, false, false,
-                      true, true, true, false)), (String ((Ascii (true,
-                      false, true, false, true, true, true, false)), (String
-                      ((Ascii (true, false, true, false, false, true, true,
-                      false)), (String ((Ascii (false, true, true, true,
-                      false, true, true, false)), (String ((Ascii (true,
-                      true, false, false, false, true, true, false)), (String
-                      ((Ascii (true, false, true, false, false, true, true,
-                      false)), EmptyString))))))))))))))))))))))))
-                 then (match v with
-                       | VL l ->
-                         (match l with
-                          | [] -> None
-                          | v0 :: l0 ->
-                            (match v0 with
-                             | VN maxlen ->
-                               (match l0 with
-                                | [] -> None
-                                | v1 :: l1 ->
-                                  (match v1 with
-                                   | VL s ->
-                                     (match l1 with
-                                      | [] -> None
-                                      | v2 :: l2 ->
-                                        (match v2 with
-                                         | VN k ->
-                                           (match l2 with
-                                            | [] -> None
-                                            | v3 :: l3 ->
-                                              (match v3 with
-                                               | VN p ->
-                                                 (match l3 with
-                                                  | [] -> None
-                                                  | v4 :: l4 ->
-                                                    (match v4 with
-                                                     | VL pm ->
-                                                       (match l4 with
-                                                        | [] -> None
-                                                        | v5 :: l5 ->
-                                                          (match v5 with
-                                                           | VN r ->
-                                                             (match l5 with
-                                                              | [] ->
-                                                                (match 
-                                                                 vlistN s with
-                                                                 | Some sq ->
-                                                                   (match 
-                                                                    match pm with
-                                                                    | [] ->
-                                                                    Some None
-                                                                    | v6 :: l6 ->
-                                                                    (match v6 with
-                                                                    | VN _ ->
-                                                                    None
-                                                                    | VL t ->
-                                                                    (match l6 with
-                                                                    | [] ->
-                                                                    option_map
-                                                                    (fun x ->
-                                                                    Some x)
-                                                                    (vlistN t)
-                                                                    | _ :: _ ->
-                                                                    None)
-                                                                    | _ ->
-                                                                    None) with
-                                                                    | Some perm ->
-                                                                    if 
-                                                                    match perm with
-                                                                    | Some t ->
-                                                                    N.eqb
-                                                                    (N.of_nat
-                                                                    (length t))
-                                                                    (N.pow
-                                                                    (Npos (XO
-                                                                    (XO XH)))
-                                                                    p)
-                                                                    | None ->
-                                                                    true
-                                                                    then 
-                                                                    Some
-                                                                    (ofopt
-                                                                    (fun l6 ->
-                                                                    VL
-                                                                    (map
-                                                                    of_piece
-                                                                    l6))
-                                                                    (msp_sequence
-                                                                    maxlen sq
-                                                                    (N.to_nat
-                                                                    k)
-                                                                    (N.to_nat
-                                                                    p) perm
-                                                                    (negb
-                                                                    (N.eqb r
-                                                                    N0))))
-                                                                    else 
-                                                                    Some VAny
-                                                                    | None ->
-                                                                    None)
-                                                                 | None ->
-                                                                   None)
-                                                              | _ :: _ -> None)
-                                                           | _ -> None))
-                                                     | _ -> None))
-                                               | _ -> None))
-                                         | _ -> None))
-                                   | _ -> None))
-                             | _ -> None))
-                       | _ -> None)
-                 else if eqb1 op (String ((Ascii (true, true, false, false,
-                           false, true, true, false)), (String ((Ascii
-                           (false, false, false, true, false, true, true,
-                           false)), (String ((Ascii (true, true, false, true,
-                           false, true, true, false)), (String ((Ascii
-                           (false, true, true, true, false, true, false,
-                           false)), (String ((Ascii (true, false, true, true,
-                           false, true, true, false)), (String ((Ascii (true,
-                           true, false, false, true, true, true, false)),
-                           (String ((Ascii (false, false, false, false, true,
-                           true, true, false)), EmptyString))))))))))))))
-                      then (match v with
-                            | VL l ->
-                              (match l with
-                               | [] -> None
-                               | v0 :: l0 ->
-                                 (match v0 with
-                                  | VN k ->
-                                    (match l0 with
-                                     | [] -> None
-                                     | v1 :: l1 ->
-                                       (match v1 with
-                                        | VN r ->
-                                          (match l1 with
-                                           | [] -> None
-                                           | v2 :: l2 ->
-                                             (match v2 with
-                                              | VL ros ->
-                                                (match l2 with
-                                                 | [] ->
-                                                   (match omap v_read_out ros with
-                                                    | Some l3 ->
-                                                      Some
-                                                        (ofbool
-                                                          (check_msp
-                                                            (N.to_nat k)
-                                                            (negb
-                                                              (N.eqb r N0))
-                                                            l3))
-                                                    | None -> None)
-                                                 | _ :: _ -> None)
-                                              | _ -> None))
-                                        | _ -> None))
-                                  | _ -> None))
-                            | _ -> None)
-                      else None
-
-(** val is_scan_op : string -> bool **)
-
-let is_scan_op op =
-  (||)
-    ((||)
-      ((||)
-        ((||)
-          (eqb1 (substring O (S (S (S (S (S O))))) op) (String ((Ascii (true,
-            true, false, false, true, true, true, false)), (String ((Ascii
-            (true, true, false, false, false, true, true, false)), (String
-            ((Ascii (true, false, false, false, false, true, true, false)),
-            (String ((Ascii (false, true, true, true, false, true, true,
-            false)), (String ((Ascii (false, true, true, true, false, true,
-            false, false)), EmptyString)))))))))))
-          (eqb1 (substring O (S (S (S (S O)))) op) (String ((Ascii (true,
-            false, true, true, false, true, true, false)), (String ((Ascii
-            (true, true, false, false, true, true, true, false)), (String
-            ((Ascii (false, false, false, false, true, true, true, false)),
-            (String ((Ascii (false, true, true, true, false, true, false,
-            false)), EmptyString))))))))))
-        (eqb1 op (String ((Ascii (true, true, false, false, false, true,
-          true, false)), (String ((Ascii (false, false, false, true, false,
-          true, true, false)), (String ((Ascii (true, true, false, true,
-          false, true, true, false)), (String ((Ascii (false, true, true,
-          true, false, true, false, false)), (String ((Ascii (true, true,
-          false, false, true, true, true, false)), (String ((Ascii (true,
-          true, false, false, false, true, true, false)), (String ((Ascii
-          (true, false, false, false, false, true, true, false)), (String
-          ((Ascii (false, true, true, true, false, true, true, false)),
-          EmptyString))))))))))))))))))
-      (eqb1 op (String ((Ascii (true, true, false, false, false, true, true,
-        false)), (String ((Ascii (false, false, false, true, false, true,
-        true, false)), (String ((Ascii (true, true, false, true, false, true,
-        true, false)), (String ((Ascii (false, true, true, true, false, true,
-        false, false)), (String ((Ascii (true, true, false, false, true,
-        true, true, false)), (String ((Ascii (true, true, false, false,
-        false, true, true, false)), (String ((Ascii (true, false, false,
-        false, false, true, true, false)), (String ((Ascii (false, true,
-        true, true, false, true, true, false)), (String ((Ascii (false, true,
-        true, true, false, true, false, false)), (String ((Ascii (true,
-        false, true, false, true, true, true, false)), (String ((Ascii
-        (false, true, true, true, false, true, true, false)), (String ((Ascii
-        (true, true, true, false, false, true, true, false)), (String ((Ascii
-        (true, false, true, false, true, true, true, false)), (String ((Ascii
-        (true, false, false, false, false, true, true, false)), (String
-        ((Ascii (false, true, false, false, true, true, true, false)),
-        (String ((Ascii (false, false, true, false, false, true, true,
-        false)), (String ((Ascii (true, false, true, false, false, true,
-        true, false)), (String ((Ascii (false, false, true, false, false,
-        true, true, false)), EmptyString))))))))))))))))))))))))))))))))))))))
-    (eqb1 op (String ((Ascii (true, true, false, false, false, true, true,
-      false)), (String ((Ascii (false, false, false, true, false, true, true,
-      false)), (String ((Ascii (true, true, false, true, false, true, true,
-      false)), (String ((Ascii (false, true, true, true, false, true, false,
-      false)), (String ((Ascii (true, false, true, true, false, true, true,
-      false)), (String ((Ascii (true, true, false, false, true, true, true,
-      false)), (String ((Ascii (false, false, false, false, true, true, true,
-      false)), EmptyString)))))))))))))))
-
 (** val cfg_of : n -> n -> kcfg **)
 
 let cfg_of w k =
@@ -5175,4 +4163,4 @@ let dispatch op v =
             (String ((Ascii (false, true, true, true, false, true, false,
             false)), EmptyString))))))))
        then d_spec_kmer op v
-       else if is_scan_op op then d_scan op v else None
+       else None
